@@ -90,8 +90,9 @@ type phase struct {
 }
 
 type scenario struct {
-	LogLevel   string        `json:"log_level,omitempty"` // -log-level of the daemon ("" = its default, info)
-	GoMaxProcs int           `json:"gomaxprocs"`          // GOMAXPROCS of the daemon process, 0 = default (a CPU-limited container runs with 1 or 2)
+	Prefill    int           `json:"events_file_prefilled_lines,omitempty"` // events already in the output file when the daemon starts (a restart)
+	LogLevel   string        `json:"log_level,omitempty"`                   // -log-level of the daemon ("" = its default, info)
+	GoMaxProcs int           `json:"gomaxprocs"`                            // GOMAXPROCS of the daemon process, 0 = default (a CPU-limited container runs with 1 or 2)
 	Sessions   []sessionPlan `json:"sessions"`
 	Sshd       []sshdItem    `json:"sshd"`
 	Audit      []auditItem   `json:"audit"`
@@ -255,6 +256,9 @@ func genScenario(r *hutil.Rand) *scenario {
 	sc := &scenario{GoMaxProcs: []int{0, 0, 0, 1, 2, 4}[r.Intn(6)]}
 	if r.Chance(1, 3) {
 		sc.LogLevel = "debug"
+	}
+	if r.Chance(1, 4) {
+		sc.Prefill = 1 + r.Intn(3)
 	}
 	var seqs [][]*protoItem // per session: its items in the order they must be written
 	usedPID := map[int]bool{}
@@ -615,4 +619,13 @@ func (sc *scenario) writeStats() writeStats {
 		}
 	}
 	return ws
+}
+
+// prefillBytes: what an earlier run of the daemon left in the events file (whole events, one per line)
+func prefillBytes(n int) []byte {
+	var b []byte
+	for i := 0; i < n; i++ {
+		b = append(b, fmt.Sprintf(`{"metadata":{"auditId":"earlier-run-%d"},"type":"UserLogin","loggedAt":"2020-01-01T00:00:0%dZ","source":{"type":"IP","value":"192.0.2.%d","extra":{"port":"40%d"}},"outcome":"failed","subjects":{"loggedAs":"account-of-an-earlier-run-with-a-long-name-%d","pid":"%d","userID":"unknown"},"component":"sshd","target":{"host":"earlier","machine-id":"earlier"}}`+"\n", i, i, i+1, i, i, 100+i)...)
+	}
+	return b
 }
